@@ -37,6 +37,14 @@ TRANSPARENT_SUFFIX = (
 )
 
 
+PARTIAL_ITER = ("skip", "take", "step_by", "filter", "skip_while", "take_while", "nth", "filter_map", "rev")
+
+
+def partial_iteration(names):
+    """iterator adaptors (by resolved path) that make a loop range over a part of a collection"""
+    return sorted(n for n in names if n.startswith("core::iter::") and n.split("::")[-1] in PARTIAL_ITER)
+
+
 def default_transparent(t):
     n = callee_name(t) or ""
     if n.startswith(("core::", "alloc::", "std::")):
@@ -95,13 +103,15 @@ class FlowGraph:
                         add.add(p["l"])
                 elif k in ("use", "cast"):
                     src = op_local(rv["a"])
-                    if src is not None and (is_ref_ty(fn.local_ty(lhs["l"])) or "{closure" in fn.local_ty(lhs["l"])):
+                    if src is not None:
                         add |= self.ref_of.get(src, set())
                 elif k == "agg":
                     for o in rv["ops"]:
                         src = op_local(o)
                         if src is not None and is_ref_ty(fn.local_ty(src)):
                             add |= self.ref_of.get(src, set())
+                for x in list(add):
+                    add |= self.ref_of.get(x, set())
                 if add - self.ref_of[lhs["l"]]:
                     self.ref_of[lhs["l"]] |= add
                     changed = True
@@ -116,6 +126,8 @@ class FlowGraph:
                         src = op_local(a)
                         if src is not None:
                             add |= self.ref_of.get(src, set())
+                    for x in list(add):
+                        add |= self.ref_of.get(x, set())
                     if add - self.ref_of[d["l"]]:
                         self.ref_of[d["l"]] |= add
                         changed = True
@@ -392,8 +404,28 @@ class FlowGraph:
     def calls_in(self, nodes):
         return [(n[1], self.fn.term(n[1])) for n in nodes if n[0] == "c"]
 
-    def callee_names_in(self, nodes):
-        return {callee_name(self.fn.term(n[1])) for n in nodes if n[0] == "c"} - {None}
+    def callee_names_in(self, nodes, closures=False):
+        res = {callee_name(self.fn.term(n[1])) for n in nodes if n[0] == "c"} - {None}
+        res |= {n[1] for n in nodes if n[0] == "cn"}
+        if closures:
+            prog = self.fn.prog
+            todo = []
+            for n in nodes:
+                if n[0] == "c":
+                    todo.extend(self.fn.closure_args(self.fn.term(n[1])))
+            seen = set()
+            while todo:
+                cid = todo.pop()
+                if cid in seen or cid not in prog.fns:
+                    continue
+                seen.add(cid)
+                cf = prog.fns[cid]
+                for b, t in cf.calls():
+                    cn = callee_name(t)
+                    if cn:
+                        res.add(cn)
+                    todo.extend(cf.closure_args(t))
+        return res
 
     def fields_in(self, nodes):
         return {(n[1], n[2]) for n in nodes if n[0] == "f"}
